@@ -6,6 +6,7 @@ import (
 	"os"
 	"runtime"
 	"strings"
+	"sync"
 
 	"github.com/emersion/go-sasl"
 	smtp "github.com/emersion/go-smtp"
@@ -39,16 +40,30 @@ func connLocked(sc *SimConn) bool {
 // asks, Server.Close preempted in the middle of Conn.Close - lets go of it as
 // soon as it gets the processor. Held after many yields means held by us.
 func heldByCaller(c *smtp.Conn) bool {
-	if !smtp.VerifConnLocked(c) {
+	if !probeConnLocked(c) {
 		return false
 	}
-	for i := 0; i < 200; i++ {
+	for i := 0; i < probeYields; i++ {
 		runtime.Gosched()
-		if !smtp.VerifConnLocked(c) {
+		if !probeConnLocked(c) {
 			return false
 		}
 	}
 	return true
+}
+
+// probeMu serialises the probes: a probe is a TryLock followed by an Unlock, and two
+// goroutines of one instant that probed side by side could each take the other's probe
+// for a holder (seen once in 10^5 runs of the instr tier under GOMAXPROCS=4, where the
+// other goroutine can lose the processor in the middle of its probe).
+var probeMu sync.Mutex
+
+const probeYields = 1000
+
+func probeConnLocked(c *smtp.Conn) bool {
+	probeMu.Lock()
+	defer probeMu.Unlock()
+	return smtp.VerifConnLocked(c)
 }
 
 func underConnLock() bool {
